@@ -76,6 +76,8 @@ TEnd == /\ Ev("end") /\ UNCHANGED vars /\ Same /\ ~owed
         /\ \A i \in 1..Len(Sessions) : /\ ToSet(E.obs.listeners[i]) = Expected(Sessions[i])
                                        /\ Len(E.obs.listeners[i]) = Cardinality(Expected(Sessions[i]))
         /\ (done = "pending" => (phase \in {"delay", "connecting", "joined", "check"}))
+        \* a component whose start() is still pending has a timer running or a connection in flight: it never just stops
+        /\ ~E.obs.idle
 TNext == TLostStim \/ TStart \/ TCheck \/ TAttempt \/ TFail \/ TJoined \/ TLeft \/ TStop \/ TDone \/ TEnd
 TraceSpec == TInit /\ [][TNext]_tvars
 Progress == TLCSet(tid, IF TLCGet(tid) < l THEN l ELSE TLCGet(tid))
